@@ -14,7 +14,7 @@ def LabelOK (n : Nat) : Label → Prop
 def SchedOK (n : Nat) (sched : List Label) : Prop := ∀ l ∈ sched, LabelOK n l
 
 /-- census invariant; `P` is the address list the connection was created with -/
-structure Inv (P : List Nat) (s : St) : Prop where
+structure Inv (P : List HopAddr.Dest) (s : St) : Prop where
   cur_newest : s.cur + 1 = s.mark
   prev_lt : ∀ k, s.prev = some k → k < s.cur
   open_sub : ∀ k, k < s.mark → (s.sock k).closed = false → k = s.cur ∨ s.prev = some k
@@ -31,7 +31,7 @@ def SameCensus (s t : St) : Prop :=
 
 theorem SameCensus.refl (s : St) : SameCensus s s := ⟨rfl, rfl, rfl, rfl, rfl, rfl, fun _ => rfl⟩
 
-theorem Inv.of_same {P : List Nat} {s t : St} (h : Inv P s) (e : SameCensus s t) : Inv P t := by
+theorem Inv.of_same {P : List HopAddr.Dest} {s t : St} (h : Inv P s) (e : SameCensus s t) : Inv P t := by
   obtain ⟨e1, e2, e3, e4, e5, e6, e7⟩ := e
   constructor
   · rw [e3, e6]; exact h.cur_newest
@@ -142,7 +142,7 @@ theorem hop_closed_same (s : St) (ok : Bool) (idx : Nat) (h : s.closed = true) :
     hop s ok idx = (s, .hopClosed) := by
   unfold hop; simp [h]
 
-theorem hop_inv {P : List Nat} {s : St} (h : Inv P s) (ok : Bool) (idx : Nat)
+theorem hop_inv {P : List HopAddr.Dest} {s : St} (h : Inv P s) (ok : Bool) (idx : Nat)
     (hidx : idx < P.length) : Inv P (hop s ok idx).1 := by
   unfold hop
   by_cases hc : s.closed = true
@@ -210,7 +210,7 @@ theorem close_sock_closed (s : St) (i : Nat) :
       (if i = s.cur then true else if s.prev = some i then true else (s.sock i).closed) := by
   rw [closeSock_closed, closePrev_closed]
 
-theorem close_inv {P : List Nat} {s : St} (h : Inv P s) : Inv P (close s).1 := by
+theorem close_inv {P : List HopAddr.Dest} {s : St} (h : Inv P s) : Inv P (close s).1 := by
   unfold close
   by_cases hc : s.closed = true
   · simp only [hc, if_true]; exact h
@@ -256,7 +256,7 @@ theorem close_mark (s : St) : (close s).1.mark = s.mark := by
 
 /-! ### every step, every schedule -/
 
-theorem step_inv {P : List Nat} (b : Bool) {s : St} (h : Inv P s) (l : Label)
+theorem step_inv {P : List HopAddr.Dest} (b : Bool) {s : St} (h : Inv P s) (l : Label)
     (hl : LabelOK P.length l) : Inv P (stepG b s l).1 := by
   cases l with
   | hop ok idx => exact hop_inv h ok idx hl
@@ -283,7 +283,7 @@ theorem step_inv {P : List Nat} (b : Bool) {s : St} (h : Inv P s) (l : Label)
   | localAddr => exact h
   | close => exact close_inv h
 
-theorem run_inv {P : List Nat} (b : Bool) {s : St} (h : Inv P s) (sched : List Label)
+theorem run_inv {P : List HopAddr.Dest} (b : Bool) {s : St} (h : Inv P s) (sched : List Label)
     (hs : SchedOK P.length sched) : Inv P (runG b s sched) := by
   induction sched generalizing s with
   | nil => exact h
@@ -291,7 +291,7 @@ theorem run_inv {P : List Nat} (b : Bool) {s : St} (h : Inv P s) (sched : List L
     simp only [runG, List.foldl_cons]
     exact ih (step_inv b h l (hs l (by simp))) (fun x hx => hs x (List.mem_cons_of_mem _ hx))
 
-theorem init_inv {P : List Nat} {idx : Nat} (h : idx < P.length) : Inv P (initSt P idx) := by
+theorem init_inv {P : List HopAddr.Dest} {idx : Nat} (h : idx < P.length) : Inv P (initSt P idx) := by
   constructor
   · rfl
   · intro k hk; cases hk
@@ -417,7 +417,7 @@ theorem run_quiet (s : St) (sched : List Label) (h : Quiet s) : Quiet (run s sch
 
 /-! ### no panic -/
 
-theorem step_no_panic {P : List Nat} (b : Bool) {s : St} (h : Inv P s) (l : Label) :
+theorem step_no_panic {P : List HopAddr.Dest} (b : Bool) {s : St} (h : Inv P s) (l : Label) :
     (stepG b s l).2 ≠ .panic := by
   cases l with
   | hop ok idx =>
@@ -487,7 +487,7 @@ theorem countP_or_le (p q : Nat → Bool) (l : List Nat) :
     simp only [List.countP_cons]
     cases p a <;> cases q a <;> simp <;> omega
 
-theorem openCount_le_two {P : List Nat} {s : St} (h : Inv P s) : openCount s ≤ 2 := by
+theorem openCount_le_two {P : List HopAddr.Dest} {s : St} (h : Inv P s) : openCount s ≤ 2 := by
   unfold openCount
   have hsub : ∀ k ∈ List.range s.mark, (!(s.sock k).closed) = true →
       ((k == s.cur) || (k == s.prev.getD s.cur)) = true := by
